@@ -285,7 +285,7 @@ package keyvalue
 //@ spec fileInv(f *file) := f != nil && f.fileData != nil && f.fileData.fs != nil && roInv(fRec(f)) && f.offset >= 0
 //@ spec hData(f *file) := ite(fRec(f).dataDone == 1, fRec(f).data, recDataBlob(fRec(f)))
 //@ spec hDataErr(f *file) := ite(fRec(f).dataDone == 1, fRec(f).dataErr, recDataErr(fRec(f)))
-//@ spec hDataOK(f *file) := implies(hDataErr(f) == nil, blob.blobOK(hData(f)) && !blob.blobLocked(hData(f)) && isType(hData(f), *blob.Bytes))
+//@ spec hDataOK(f *file) := implies(hDataErr(f) == nil, blob.blobOK(hData(f)) && !blob.blobLocked(hData(f)) && isType(hData(f), *blob.Bytes)) && (payload(hData(f)) == 0 || allocated(payload(hData(f))))
 //@ spec closedError(err error, f *file) := isPathError(err) && errIs(err, hackpadfs.ErrClosed) && pathOf(err) == f.path
 
 //@ func (f *file) closedErr(op string) (err error)
